@@ -59,9 +59,11 @@ macro "disp_tie" : tactic => `(tactic| (
     ctimespecValue, WMsg.recvd, WMsg.value, WMsg.toMsg, *]
   generalize hM : Updater.step _ _ = M
   repeat' split
-  all_goals (subst hM; simp [Updater.step, extractBound, boundF, classify, leapClass, Updater.record, chk,
+  all_goals (subst hM; try simp [Updater.step, extractBound, boundF, classify, leapClass, Updater.record, chk,
     inI64, I64_MIN, I64_MAX, stepRes, writerLoopSt, contextValue, dispatchBox, receiver, updaterValue, recordValue,
-    ctimespecValue, statusValue, statusName, *])))
+    ctimespecValue, statusValue, statusName, *])
+  -- comparisons may come in another normal form than the model's (`x < 3` for `x ≤ 2`): split what is left
+  all_goals (try (split_ifs <;> first | rfl | omega | simp_all))))
 
 set_option maxRecDepth 8000 in
 set_option maxHeartbeats 4000000 in
